@@ -7,7 +7,8 @@ Re-extracted on every run (comments / whitespace invisible):
   sm_store_u32                N of `next + N > end`
   sm_load_u32                 N of `(sm->state + N) > sm->state_end`, and whether that test stands before the
                               first `*sm->state` read
-  sm_load_string              the tag it passes to sm_load_u32
+  sm_load_string              the tag it passes to sm_load_u32; whether `(sm->state + l) > sm->state_end` is tested
+                              before the allocation
   xmpp_conn_restore_sm_state  the tags of its sm_load_u32 calls in order, the version it memcmp's, the minimum
                               length (`sm_state_len < A * B`), and five yes/no facts about the code:
                                 - the send-queue loop stores `item->prev = conn->send_queue_tail`
@@ -128,6 +129,9 @@ def values():
     v["ld_incr_before_check"] = bool(re.search(r"sm->state\s*\+\+", ld[:m.start()]))
     ls = func_body(src, "sm_load_string")
     v["ld_tag_str"] = T.c_int(one(r"sm_load_u32\s*\(\s*sm\s*,\s*(\w+)\s*,", ls, "sm_load_string: sm_load_u32(sm, tag"))
+    malloc = re.search(r"strophe_alloc", ls)
+    mchk = re.search(r"\(\s*sm->state\s*\+\s*l\s*\)\s*>\s*sm->state_end", ls)
+    v["ld_str_check"] = bool(mchk and malloc and mchk.start() < malloc.start())
 
     rs = func_body(src, "xmpp_conn_restore_sm_state")
     ltags = [T.c_int(t) for t in re.findall(r"sm_load_u32\s*\(\s*&sm\s*,\s*(\w+)\s*,", rs)]
@@ -207,6 +211,8 @@ def generate():
     o += "Definition ld_need : Z := %d.\n" % v["ld_need"]
     o += "Definition ld_check_first : bool := %s.\n" % b(v["ld_check_first"])
     o += "Definition ld_incr_before_check : bool := %s.\n" % b(v["ld_incr_before_check"])
+    o += "(* sm_load_string tests `(sm->state + l) > sm->state_end` before it allocates and copies *)\n"
+    o += "Definition ld_str_check : bool := %s.\n" % b(v["ld_str_check"])
     o += "Definition rst_links_prev : bool := %s.\n" % b(v["fix_prev"])
     o += "Definition rst_err_frees_queue : bool := %s.\n" % b(v["fix_err_queue"])
     o += "Definition rst_err_clears_sm : bool := %s.\n" % b(v["fix_err_null"])
